@@ -193,6 +193,10 @@ func (l *Lexer) NextToken() token.Token {
 		t = newToken(token.STRING, l.char, line, index)
 		t.Literal = l.readString()
 		t.Offset = 2 // a couple of "
+		if l.char != '"' {
+			// The input ends inside the string: it is no string token, the parser reports it
+			t.Type = token.ILLEGAL
+		}
 	case ';':
 		t = newToken(token.SEMICOLON, l.char, line, index)
 	case '.':
